@@ -41,6 +41,8 @@ type c04World struct {
 	notes       []string
 	// restartL1: L1 goes through a genesis export / import between finalization and the claims
 	restartL1 bool
+	// sendDisabled: the L1 bank's send-enabled flag of every bridged denom is switched off before the claims
+	sendDisabled bool
 }
 
 type c04Out struct {
@@ -169,6 +171,14 @@ func (w *c04World) settle(l2Block uint64) ([]c04Claimed, error) {
 			}
 		}
 	}
+	if w.sendDisabled {
+		// L1 governance has switched off user transfers of the bridged tokens (bank send-enabled flags) in the meantime;
+		// that is about transfers between users, the bridge pays claims from its escrow all the same
+		for _, d := range c04Denoms {
+			tc.l1.BK.SetSendEnabled(tc.l1.Ctx, d, false)
+		}
+		w.notes = append(w.notes, "L1 bank: sending of the bridged denoms disabled before the claims")
+	}
 	if w.restartL1 {
 		// L1 is restarted from its exported genesis between finalization and the claims (claims have no deadline)
 		tc.restartL1()
@@ -255,22 +265,40 @@ func TestC04Rapid(t *testing.T) {
 			// the L2 bank module already has display metadata for the bridged tokens (e.g. from its genesis)
 			for _, d := range c04Denoms {
 				l2d := tcL2Denom(tc, d)
-				tc.l2.BK.SetDenomMetaData(tc.l2.Ctx, banktypes.Metadata{Base: l2d, Display: l2d, Name: "preset", Symbol: "PRE", DenomUnits: []*banktypes.DenomUnit{{Denom: l2d, Exponent: 0}}})
+				presetBankMetadata(rt, tc.l2, l2d)
 			}
 			c.Class("l2-bank-metadata-preset")
 		}
 		// one history in four is committed by an output that covers far more withdrawals than these
 		w.extraLevels = rapid.SampledFrom([]int{0, 0, 0, 0, 0, 0, 0, 0, 0, 3, 10, 13, 14, 15, 16, 17, 20, 29, 32, 40, 61, 64}).Draw(rt, "extraLevels")
+		if w.sendDisabled = rapid.IntRange(0, 5).Draw(rt, "sendDisabled") == 0; w.sendDisabled {
+			c.Class("l1-bank-send-disabled-before-the-claims")
+		}
 		if w.restartL1 = rapid.IntRange(0, 3).Draw(rt, "restartL1") == 0; w.restartL1 {
 			c.Class("l1-restarted-from-genesis-before-the-claims")
 		}
+		nativeReady := false
 		repeatSteps(rt, nOps, func(i int) {
 			denom := rapid.SampledFrom(c04Denoms).Draw(rt, "denom")
 			amt, _ := math.NewIntFromString(rapid.SampledFrom(c04Amounts).Draw(rt, "amount"))
 			if nOps > 12 {
 				amt = math.NewInt(int64(rapid.IntRange(1, 1000).Draw(rt, "small")))
 			}
-			switch drawWeighted(rt, "op", []weighted{{"deposit-withdraw", 6}, {"refund", 4}, {"withdraw-more", 2}, {"hook-withdraw", 3}, {"failing-hook", 3}, {"commit-output", 2}}) {
+			switch drawWeighted(rt, "op", []weighted{{"deposit-withdraw", 6}, {"refund", 4}, {"withdraw-more", 2}, {"hook-withdraw", 3}, {"failing-hook", 3}, {"commit-output", 2}, {"withdraw-native", 1}}) {
+			case "withdraw-native":
+				// a token that was never bridged (native to L2, with ordinary bank metadata): if L2 records a withdrawal
+				// of it, that record has to be claimable like any other - L1 holds nothing of it, so L2 must refuse
+				user := tc.users[rapid.IntRange(1, 4).Draw(rt, "nuser")]
+				if !nativeReady {
+					nativeReady = true
+					tc.l2.BK.SetDenomMetaData(tc.l2.Ctx, banktypes.Metadata{Base: "umin", Display: "min", Name: "min", Symbol: "MIN", DenomUnits: []*banktypes.DenomUnit{{Denom: "umin", Exponent: 0}, {Denom: "min", Exponent: 6}}})
+					for _, u := range tc.users {
+						tc.l2.Fund(u.Addr, coinOf("umin", 1000))
+					}
+				}
+				r := w.withdraw(user, tc.users[2].Str, coinOf("umin", int64(rapid.IntRange(1, 50).Draw(rt, "namt"))))
+				log = append(log, fmt.Sprintf("withdrawal of a native L2 token by a user: accepted by L2=%v (%v)", r.OK(), r.Err))
+				c.Class("withdrawal-attempt-of-a-native-l2-token")
 			case "commit-output":
 				// the executor submits an output over what has been recorded since the last one
 				if err := w.commit(); err != nil {
